@@ -171,9 +171,10 @@ LIB_EXC = {
     'asyncio.QueueEmpty': 'QueueEmptyLib', 'queue.Empty': 'QueueEmptyLib',
     'websocket.WebSocketConnectionClosedException': 'WebSocketConnectionClosedException',
     'websocket.WebSocketTimeoutException': 'WebSocketTimeoutException',
+    'aiohttp.client_exceptions.ServerDisconnectedError': 'ServerDisconnectedError',
     'binascii.Error': 'BinasciiError',
 }
-LIB_MODS = {'urllib.parse', 'os.path'}
+LIB_MODS = {'urllib.parse', 'os.path', 'aiohttp.client_exceptions'}
 
 
 def method(eng, o, attr):
